@@ -64,6 +64,8 @@ type synthState struct {
 	mapNN       map[*types.Var]int
 	allocs      map[string]*ssa.Alloc
 	wo          map[string]*woResult
+	accShapes   map[*ssa.Function]*accShape
+	accCalls    map[ssa.Value]*ssa.Call
 }
 
 func (w *World) ss() *synthState {
@@ -1801,4 +1803,123 @@ func (w *World) partOf(fn, root *ssa.Function) bool {
 		fn = site.Parent()
 	}
 	return false
+}
+
+// accShape: a lookup accessor — a method whose only result is recv.<field>[K(arg)] (K a static
+// function of the argument, or the argument itself), e.g. GetPermission.
+type accShape struct {
+	field *types.Var
+	keyFn *ssa.Function
+}
+
+func (w *World) accessorShape(h *ssa.Function) *accShape {
+	s := w.ss()
+	if s.accShapes == nil {
+		s.accShapes = map[*ssa.Function]*accShape{}
+	}
+	if r, ok := s.accShapes[h]; ok {
+		return r
+	}
+	s.accShapes[h] = nil
+	if h == nil || len(h.Blocks) == 0 || len(h.Params) != 2 {
+		return nil
+	}
+	rets := returnsOf(h)
+	if len(rets) != 1 || len(rets[0].Results) != 1 {
+		return nil
+	}
+	lk, ok := w.resolveLoad(rets[0].Results[0]).(*ssa.Lookup)
+	if !ok || lk.CommaOk {
+		return nil
+	}
+	base, fld, isL := fieldLoad(lk.X)
+	if !isL || rawParamOf(base, h) != h.Params[0] {
+		return nil
+	}
+	sh := &accShape{field: fld}
+	idx := stripIface(lk.Index)
+	if kc, isC := idx.(*ssa.Call); isC {
+		if kc.Call.StaticCallee() == nil || len(kc.Call.Args) != 1 || rawParamOf(kc.Call.Args[0], h) != h.Params[1] {
+			return nil
+		}
+		sh.keyFn = kc.Call.StaticCallee()
+	} else if rawParamOf(idx, h) != h.Params[1] {
+		return nil
+	}
+	s.accShapes[h] = sh
+	return sh
+}
+
+// asAccessorCall: v is the accessor's lookup written out in place (x.<field>[K(y)], plain or
+// the value of a comma-ok lookup): the equivalent call h(x, y) as a synthetic value placed
+// where the lookup is. nil when v is not that lookup.
+func (w *World) asAccessorCall(v ssa.Value, h *ssa.Function) *ssa.Call {
+	sh := w.accessorShape(h)
+	if sh == nil {
+		return nil
+	}
+	v = stripIface(w.resolveLoad(v))
+	if ex, ok := v.(*ssa.Extract); ok && ex.Index == 0 {
+		v = ex.Tuple
+	}
+	lk, ok := v.(*ssa.Lookup)
+	if !ok {
+		return nil
+	}
+	s := w.ss()
+	if s.accCalls == nil {
+		s.accCalls = map[ssa.Value]*ssa.Call{}
+	}
+	if r, ok := s.accCalls[lk]; ok {
+		return r
+	}
+	s.accCalls[lk] = nil
+	base, fld, isL := fieldLoad(w.resolveLoad(lk.X))
+	if !isL || fld != sh.field {
+		return nil
+	}
+	var arg ssa.Value
+	idx := stripIface(w.resolveLoad(lk.Index))
+	if sh.keyFn != nil {
+		kc, isC := idx.(*ssa.Call)
+		if !isC || kc.Call.StaticCallee() != sh.keyFn || len(kc.Call.Args) != 1 {
+			return nil
+		}
+		arg = kc.Call.Args[0]
+	} else {
+		arg = idx
+	}
+	syn := &ssa.Call{}
+	syn.Call.Value = h
+	syn.Call.Args = []ssa.Value{base, arg}
+	setRegType(syn, h.Signature.Results().At(0).Type())
+	setBlock(syn, lk.Block())
+	s.synOrigin[syn] = lk
+	if w.synthPos == nil {
+		w.synthPos = map[ssa.Instruction]string{}
+	}
+	w.synthPos[syn] = w.instrPos(lk) + " (the lookup of " + h.Name() + " written in place)"
+	s.accCalls[lk] = syn
+	return syn
+}
+
+// siteOfValue: the helper call through which a value (or the base it was loaded from) entered
+// the current function: the call site of a translated (virtual/synthetic) value, or the call
+// whose result it is.
+func (w *World) siteOfValue(vs ...ssa.Value) *ssa.Call {
+	for _, v := range vs {
+		if v == nil {
+			continue
+		}
+		if vv, ok := stripIface(v).(*virtVal); ok && vv.site != nil {
+			return vv.site
+		}
+		if site := w.ss().synSite[v]; site != nil {
+			return site
+		}
+		if c, _ := callOf(w.resolveLoad(v)); c != nil && c.Call.StaticCallee() != nil && w.IsMod[c.Call.StaticCallee()] {
+			return c
+		}
+	}
+	return nil
 }
